@@ -176,6 +176,14 @@ pub fn update_fields(u: u8) -> BTreeMap<String, Fv> {
             // only the NON-leading component of the (opt, opt2) composite
             m.insert("opt2".into(), Fv::U64(7));
         }
+        18 => {
+            // several fresh values around one that another document owns: whatever
+            // order the index walks them in, some fresh value comes before the conflict
+            m.insert(
+                "codes".into(),
+                Fv::Array(["qa", "qb", "x", "qc", "qd", "qe"].iter().map(|s| Fv::Text(s.to_string())).collect()),
+            );
+        }
         16 => {
             // passes the schema, rejected by the vector index (wrong dimension) after
             // the B-tree and BM25 stages already ran: everything must be rolled back
